@@ -258,6 +258,6 @@ def run(ctx, rep):
     shared.include(ctx, rep, _c18.run, {'R18.1', 'R18.2', 'R18.3', 'R18.4', 'R18.5'}, why='out-of-range / non-numeric input is rejected by the type')
     # the terminal listing prints the Hijri date of every day: its conversion and printing (C17) must not fail or disagree with itself
     from . import c17 as _c17
-    shared.include(ctx, rep, _c17.run, {'R17.2', 'R17.3', 'R17.4', 'R17.5', 'R17.6', 'R17.8', 'R17.10', 'R17.13', 'R17.14'},
+    shared.include(ctx, rep, _c17.run, {'R17.2', 'R17.3', 'R17.4', 'R17.5', 'R17.6', 'R17.8', 'R17.10', 'R17.13', 'R17.14'}, floors=True,
                    why='the listing shows the Hijri date')
 
